@@ -16,6 +16,10 @@ class FicklingContextManager:
         wrapped_load = lambda file, *args, **kwargs: loader.load(  # noqa
             file, max_acceptable_severity=self.max_acceptable_severity
         )
+        # remember what is installed NOW: a manager may be entered long after it was constructed
+        # (cm = fickling.check_safety() ... with cm:), and leaving it has to restore what was in
+        # force on entry, not what happened to be installed when the object was created
+        self.original_pickle_load = pickle.load
         hook.run_hook()
         return self
 
